@@ -54,6 +54,7 @@ def must_see(tier):
     # has no comparison left to fail)
     m['py:view-reused-after-fault'] = 30
     m['c:ledger-checks'] = 1000
+    m['c:node-census'] = 20
     return m
 
 
@@ -436,6 +437,24 @@ def fresh(fam, kind, impl, sizes):
 
 
 def run_container(fam, kind, impl, rng, rec, all_n, ci):
+    """One container through every enumerated fault - and afterwards no
+    NODE of the family may be left alive (C): an error exit that forgets to
+    drop a bucket it was holding leaks the bucket and everything in it."""
+    if impl != 'c':
+        return _run_container(fam, kind, impl, rng, rec, all_n, ci)
+    from .c16 import node_census
+    c0 = node_census(fam)
+    nv0 = len(rec.violations)
+    _run_container(fam, kind, impl, rng, rec, all_n, ci)
+    _VIEW[0] = None
+    left = node_census(fam) - c0
+    rec.ev('c:node-census')
+    if left > 0 and len(rec.violations) == nv0:
+        rec.violation('node-objects-left-after-comparison-errors', left=left,
+                      family=fam.name, kind=kind, impl=impl, container=ci)
+
+
+def _run_container(fam, kind, impl, rng, rec, all_n, ci):
     is_mapping = kind in families.MAPPING_KINDS
     is_tree = kind in families.TREE_KINDS
     sizes = gen.NODE_SIZES[rng.randrange(len(gen.NODE_SIZES))] if is_tree \
